@@ -1,7 +1,7 @@
 (* Proofs/ReportProofs.v - facts about the table model Model/Report.v, for every number of years, label offset,
    stride, row template and series. *)
 From Coq Require Import String Ascii QArith ZArith List Bool Lia.
-From Verif Require Import Model.Fmt Model.Report Proofs.FmtProofs.
+From Verif Require Import Model.Fmt Model.Float Model.Report Proofs.FmtProofs.
 Import ListNotations.
 
 Lemma mapM_length {A B} (f : A -> option B) l r : mapM f l = Some r -> length r = length l.
@@ -155,6 +155,43 @@ Proof.
     + apply (proj2 (row_cells_none off k cols i)) in H. rewrite H. reflexivity.
     + rewrite E. exact R.
 Qed.
+
+(* ---------- tables whose cells are expressions of the float model ---------- *)
+Lemma etable_length n off k segs cols rows : etable n off k segs cols = Some rows -> length rows = n.
+Proof. unfold etable. intros H. apply mapM_length in H. rewrite seq_length in H. exact H. Qed.
+
+Lemma etable_nth n off k segs cols rows : etable n off k segs cols = Some rows ->
+  forall i, (i < n)%nat -> etable_row segs off k cols i = nth_error rows i /\ nth_error rows i <> None.
+Proof.
+  unfold etable. intros H i Hi.
+  assert (E : nth_error (seq 0 n) i = Some i).
+  { rewrite (nth_error_nth' _ 0%nat) by (rewrite seq_length; exact Hi). rewrite seq_nth by exact Hi. reflexivity. }
+  destruct (mapM_nth _ _ _ H i i E) as (y & Hy & Hr). rewrite Hy, Hr. split; [reflexivity|discriminate].
+Qed.
+
+(* one row per year in order; row i shows the year label i+off and, in column j, the value the float model gives to the
+   column's expression with every SRow leaf read at index i*k *)
+Lemma etable_rows_spec n off k segs cols rows : etable n off k segs cols = Some rows ->
+  length rows = n /\
+  forall i, (i < n)%nat ->
+    exists vs s, nth_error rows i = Some s /\ length vs = length cols /\
+      (forall j e, nth_error cols j = Some e -> exists v, seval (Some (i * k)%nat) e = Some v /\ nth_error vs j = Some v) /\
+      render_line segs (year_cell (i + off) :: map (fun x => Num (fl_fval x)) vs) = Some s.
+Proof.
+  intros H. split; [eapply etable_length; eauto|]. intros i Hi.
+  destruct (etable_nth _ _ _ _ _ _ H i Hi) as [R NN].
+  destruct (nth_error rows i) as [s|] eqn:Es; [|congruence].
+  unfold etable_row, erow_cells in R. destruct (mapM _ cols) as [vs|] eqn:M; [|discriminate].
+  exists vs, s. split; [reflexivity|]. split; [eapply mapM_length; eauto|]. split; [|exact R].
+  intros j e Hj. eapply mapM_nth in M; eauto.
+Qed.
+
+(* a column that is just a series reads it at i*k: IndexError (None) exactly when the series is too short *)
+Lemma plain_col_reads c idx : seval (Some idx) (plain_col c) = match nth_error c idx with Some x => not_bad x | None => None end.
+Proof. reflexivity. Qed.
+
+Lemma plain_col_index_error c idx : (length c <= idx)%nat -> seval (Some idx) (plain_col c) = None.
+Proof. intros H. rewrite plain_col_reads. apply nth_error_None in H. rewrite H. reflexivity. Qed.
 
 (* ---------- the unit clause ---------- *)
 Local Open Scope Q_scope.
